@@ -376,7 +376,117 @@ def s_st_n(ex, obj):
     return _stream_parts(ex, obj)[2]
 
 
+def n_payload_bytes(p):
+    return b"" if p is None else p
+
+
+def s_payload_bytes(ex, p):
+    return b"" if p is None else p
+
+
+def s_same_frame(ex, a, b):
+    """two message objects serialize identically (by the serialize contract: same stored fields)"""
+    bm = ex.bm
+    acc = True
+    for f in ("_ubxClass", "_ubxID", "_length", "_checksum"):
+        acc = bm.and_(acc, bm.equals(bm.get_attr(a, f), bm.get_attr(b, f)))
+    pa, pb = bm.get_attr(a, "_payload"), bm.get_attr(b, "_payload")
+    if (pa is None) != (pb is None):
+        return False
+    if pa is not None:
+        acc = bm.and_(acc, bm.equals(pa, pb))
+    return acc
+
+
+def s_repr_of(ex, v):
+    """the text an f-string interpolates for v (repr of bytes / int): an opaque but injective piece"""
+    from pvc.builtins_model import ReprOf
+    from pvc.values import SStr, Sym
+    if isinstance(v, Sym):
+        return SStr((ReprOf(v),))
+    return str(v)
+
+
+def _cfgdb():
+    from pvc import extract
+    mod = extract.load_module("pyubx2.ubxtypes_configdb")[0]
+    return mod.UBX_CONFIG_DATABASE, mod.UBX_CONFIG_STORSIZE
+
+
+def n_cfgkey2name_spec(keyid: int):
+    """documented lookup: the first database entry with this key ID; otherwise CFG_<hex id> typed as raw bytes of
+    the storage size that bits 30..28 of the key ID (the size code) prescribe"""
+    db, stor = _cfgdb()
+    for name, (kid, typ) in db.items():
+        if kid == keyid:
+            return (name, typ)
+    return ("CFG_" + hex(keyid), "X%03d" % stor[(keyid >> 28) & 7])
+
+
+def s_cfgkey2name_spec(ex, keyid):
+    """symbolic key ID: the result's *type* is decided by a finite case split (one case per attribute type in the
+    database, then per size code for unknown IDs); the name is 'CFG_' + text determined by the key ID"""
+    from pvc.values import SStr, Opaque
+    from pvc.builtins_model import HexInt
+    if isinstance(keyid, int):
+        return n_cfgkey2name_spec(keyid)
+    db, stor = _cfgdb()
+    k = zint(keyid)
+    st = ex.st
+    bytype = {}
+    seen = set()
+    for name, (kid, typ) in db.items():
+        if kid in seen:
+            continue
+        seen.add(kid)
+        bytype.setdefault(typ, []).append(kid)
+    for typ in sorted(bytype):
+        if st.branch(mk_bool(z3.Or(*[k == kid for kid in bytype[typ]]))):
+            return (SStr(("CFG_", Opaque("dbname"))), typ)
+    for code, size in sorted(stor.items()):
+        if st.branch(mk_bool((k / (1 << 28)) % 8 == code)):
+            return (SStr(("CFG_", HexInt(k))), "X%03d" % size)
+    ex.bm.raise_(KeyError, "size code")
+
+
+def n_cfg_sizecode_invalid(keyid: int) -> bool:
+    db, stor = _cfgdb()
+    return keyid not in {k for k, _ in db.values()} and ((keyid >> 28) & 7) not in stor
+
+
+def s_cfg_sizecode_invalid(ex, keyid):
+    if isinstance(keyid, int):
+        return n_cfg_sizecode_invalid(keyid)
+    db, stor = _cfgdb()
+    k = zint(keyid)
+    kids = sorted({kid for kid, _ in db.values()})
+    return mk_bool(z3.And(z3.And(*[k != kid for kid in kids]),
+                          z3.And(*[(k / (1 << 28)) % 8 != code for code in stor])))
+
+
+def n_cfgname2key_spec(name):
+    return _cfgdb()[0][name]
+
+
+def n_cfgname_known(name):
+    return name in _cfgdb()[0]
+
+
+def s_snapshot(ex, obj):
+    """copy of a heap object's fields at this point (for `old(snapshot(x))`)"""
+    rec = ex.st.rec(obj)
+    return ex.st.alloc("obj", obj.cls, fields=dict(rec["fields"]))
+
+
 def install(reg):
+    reg.spec("snapshot", s_snapshot, None)
+    reg.spec("cfg_sizecode_invalid", s_cfg_sizecode_invalid, n_cfg_sizecode_invalid)
+    reg.spec("cfgname2key_spec", lambda ex, name: n_cfgname2key_spec(name), n_cfgname2key_spec)
+    reg.spec("cfgname_known", lambda ex, name: n_cfgname_known(name), n_cfgname_known)
+    reg.spec("cfgkey2name_spec", s_cfgkey2name_spec, n_cfgkey2name_spec)
+    reg.spec("repr_of", s_repr_of, lambda v: str(v))
+    reg.spec("payload_bytes", s_payload_bytes, n_payload_bytes)
+    reg.spec("same_frame", s_same_frame, None)
     reg.spec("no_lf", s_no_lf, n_no_lf)
     reg.spec("st_data", s_st_data, None)
     reg.spec("st_data_of_input", s_st_data_of_input, None)
